@@ -276,6 +276,11 @@ def run(ctx):
         "grin_wallet_impls::backends::lmdb::": "the wallet's own stored transaction file (C06.R4)",
         "grin_wallet_libwallet::mwixnet::": "experimental mwixnet types: replies of the swap server the owner configured, not a wallet listener input",
     }
+    ih = db.fns.get(c.LW + "slate_versions::ser::is_hex")
+    if ih is not None:
+        cl = [db.fns[k] for k in db.closures_of(ih.id)]
+        if not any((t.get("f") or "").endswith("is_ascii_hexdigit") for g_ in [ih] + cl for _b, t in g_.calls()):
+            run.error("C09.R6: slate_versions::ser::is_hex no longer tests is_ascii_hexdigit")
     n6 = 0
     seen6 = set()
     for fid, f in sorted(db.fns.items()):
@@ -310,7 +315,7 @@ def run(ctx):
             ok6 = False
             for gb, gt in f.calls():
                 gname = gt.get("f") or ""
-                if gname.endswith(("str::is_ascii", "::is_ascii")) or (gname.endswith("Iterator::all") and "is_ascii_hexdigit" in str(gt.get("a"))):
+                if gname.endswith(("str::is_ascii", "::is_ascii", "slate_versions::ser::is_hex")) or (gname.endswith("Iterator::all") and "is_ascii_hexdigit" in str(gt.get("a"))):
                     g = cfg.call_guard(f, gb)
                     if g.ok and cfg.must_pass(f, g.ok, {b})[0]:
                         ok6 = True
